@@ -221,7 +221,7 @@ C["C06"] = {
  "technique": "bounded symbolic execution of Subscribers/SelectShared/MergeSharedSelected/publishToSubscribers with every iteration order of the (randomised) Go maps as an engine decision",
  "quick": {"harnesses": [H("VerifC06Groups", N=2)], "budget_s": 300, "witnesses": 8, "perm_limit": 3,
    "bounds": "1..2 shared subscriptions (client in {c1,c2,c3}, group in {g,h}, filter in {a/b,a/+,a/#}) plus an optional non-shared subscription of c1; topic a/b; every order of maps with <= 3 entries"},
- "thorough": {"harnesses": [H("VerifC06Groups", N=3)], "budget_s": 2400, "witnesses": 16, "perm_limit": 3, "bounds": "as quick with 1..3 shared subscriptions"},
+ "thorough": {"harnesses": [H("VerifC06Groups", N=3, PERM=2)], "budget_s": 5400, "witnesses": 16, "perm_limit": 3, "bounds": "as quick with 1..3 shared subscriptions; every order of maps with <= 2 entries (3 subscriptions with every order of 3-entry maps did not finish within 2400 s on a loaded machine and is not claimed)"},
  "outside_bounds": ["OnSelectSubscribers hooks (default selection only)", "more than 3 members"],
  "stubs": SRV_STUBS, "trusted_base": SRV_TB,
 }
